@@ -537,8 +537,10 @@ class _Validator(Generic[T]):
     def _invalid_metadata(
         self, msg: str, cause: Exception | None = None
     ) -> InvalidMetadata:
+        # Only the "{field}" placeholder is substituted: the message may already
+        # contain the offending value, which must not be read as a format string.
         exc = InvalidMetadata(
-            self.raw_name, msg.format_map({"field": repr(self.raw_name)})
+            self.raw_name, msg.replace("{field}", repr(self.raw_name))
         )
         exc.__cause__ = cause
         return exc
